@@ -208,9 +208,10 @@ def run(ctx):
     samples.append({'part': 'settings', 'text': rcases[3]['text']})
     # ---------------- 6 session
     fam = sessfam.Family(ctx, 'C09', 'garbage', ['P_C09'])
-    confs = [dict(role='acc', bs=42, maxIn=4, maxOut=4), dict(role='init', bs=44, maxIn=4, maxOut=4, checkLatency=False)]
+    confs = [dict(role='acc', bs=42, maxIn=4, maxOut=4), dict(role='init', bs=44, maxIn=4, maxOut=4, checkLatency=False),
+             dict(role='acc', bs=41 if ctx.seed % 2 else 40, maxIn=4, maxOut=4)]
     if not quick:
-        confs += [dict(role='acc', bs=40, maxIn=4, maxOut=4), dict(role='init', bs=50, maxIn=4, maxOut=4), dict(role='acc', bs=44, chunk=1, maxIn=4, maxOut=5)]
+        confs += [dict(role='init', bs=40 if ctx.seed % 2 else 41, maxIn=4, maxOut=4), dict(role='init', bs=50, maxIn=4, maxOut=4), dict(role='acc', bs=44, chunk=1, maxIn=4, maxOut=5)]
     for conf in confs:
         fam.model(conf, maxlen=30, switch_budget=10000 if quick else 200000, cover='class' if quick else 'edges')
     srows, viols, divs = fam.replay_and_validate()
